@@ -5,9 +5,11 @@ pub mod bgzf {
 use vstd::prelude::*;
 use vstd::std_specs::cmp::*;
 use core::cmp::Ordering;
-//@ item file=noodles-bgzf/src/virtual_position.rs path="struct VirtualPosition" vis=pub fields=pub
+//@ item file=noodles-bgzf/src/virtual_position.rs path="struct VirtualPosition" vis=pub fields=pub dropderive="Default"
 //@ end
 impl VirtualPosition { pub open spec fn v(self) -> u64 { self.0 } }
+// TRUSTED: #[derive(Default)] on the u64 newtype yields 0
+impl Default for VirtualPosition { fn default() -> (r: Self) ensures r.v() == 0 { VirtualPosition(0) } }
 impl PartialOrdSpecImpl for VirtualPosition {
     open spec fn obeys_partial_cmp_spec() -> bool { true }
     open spec fn partial_cmp_spec(&self, other: &VirtualPosition) -> Option<Ordering> {
